@@ -1016,6 +1016,56 @@ func ruleGlobalShared(c *Ctx, r *Report, scope func(*ssa.Function) bool, allowed
 				r.Bad("R2-SHARE", key, c.Pos(st.Pos()), fmt.Sprintf("a reference into the storage of package-level variable %s is stored into an object: every object built here shares that storage, and a write through one is seen by all", g.Name()))
 			}
 		}
+		// the address of a package-level variable (or of a field / element of one) handed out: returned, or stored into
+		// a field or element
+		addrOfGlobal := func(v ssa.Value) *ssa.Global {
+			for i := 0; i < 4; i++ {
+				switch x := v.(type) {
+				case *ssa.Global:
+					return x
+				case *ssa.FieldAddr:
+					v = x.X
+				case *ssa.IndexAddr:
+					v = x.X
+				case *ssa.ChangeType:
+					v = x.X
+				default:
+					return nil
+				}
+			}
+			return nil
+		}
+		for _, b := range f.Blocks {
+			for _, ins := range b.Instrs {
+				var vals []ssa.Value
+				switch x := ins.(type) {
+				case *ssa.Return:
+					vals = x.Results
+				case *ssa.Store:
+					switch x.Addr.(type) {
+					case *ssa.FieldAddr, *ssa.IndexAddr:
+						vals = []ssa.Value{x.Val}
+					}
+				}
+				for _, v := range vals {
+					if _, isPtr := v.Type().Underlying().(*types.Pointer); !isPtr {
+						continue
+					}
+					g := addrOfGlobal(v)
+					if g == nil || g.Pkg == nil || !strings.Contains(g.Pkg.Pkg.Path(), "mp4ff") {
+						continue
+					}
+					n++
+					idx++
+					key := fmt.Sprintf("%s:&%s#%d", SSAFuncName(f), g.Name(), idx)
+					if why, ok := allowed[SSAFuncName(f)+":"+g.Name()]; ok {
+						r.OK("R2-SHARE", key, c.Pos(ins.Pos()), "accepted: "+why)
+						continue
+					}
+					r.Bad("R2-SHARE", key, c.Pos(ins.Pos()), fmt.Sprintf("the address of package-level variable %s is handed out (returned or stored into an object): every caller gets the same object, and a write through one is seen by all", g.Name()))
+				}
+			}
+		}
 	}
 	return n
 }
